@@ -27,6 +27,9 @@ QBad(kind, o, x) ==
            ELSE IF x.eqdef /\ o.eq # x.eq THEN "equilibria"
            ELSE IF o.part # x.part THEN "participation"
            ELSE IF o.eff # x.eff THEN "effect" ELSE ""
+      [] kind = "dot" ->
+           IF o.snodes # x.snodes THEN "substance-nodes" ELSE IF o.rnodes # x.rnodes THEN "reaction-nodes"
+           ELSE IF o.edges # x.edges THEN "edges" ELSE ""
       [] kind = "subset" -> IF o.yes # x.yes \/ o.no # x.no THEN "subset" ELSE ""
       [] kind = "conv" ->
            IF o.arr # x.arr THEN "array" ELSE IF o.dict # x.dict THEN "dict"
